@@ -20,8 +20,15 @@ package zebra
 //@   claims bounds div0 make
 //@ func (*HelloBody).decodeFromBytes
 //@   claims bounds div0 make
+//@ func (*RegisteredNexthop).len
+//@   pure
+//@   modifies nothing
+//@   ensures result == (int(n.Family) == 2 ? 8 : 20)
+// the list is walked entry by entry: each step advances by what the entry decoder consumed - for FRR >= 8.2 three
+// octets (resolve-via-default, SAFI) more than the older layout that len() describes
 //@ func (*NexthopRegisterBody).decodeFromBytes
-//@   claims bounds div0 make
+//@   claims bounds div0 make step
+//@   loop 0 step offset == header(offset) + (int(nh.Family) == 2 ? 8 : 20) + (version == 6 && software.name == "frr" && software.version >= 8.2 ? 3 : 0)
 //@ func (*NexthopUpdateBody).decodeFromBytes
 //@   claims bounds div0 make
 //@ func (*RegisteredNexthop).decodeFromBytes
